@@ -41,7 +41,7 @@ class GlueEngine:
 
     def run(self, name, cfile, defs=(), unwind=8, unwindset=None, checks="default", common=("glue.c", "vf_main.c", "libc_models.c"),
             replace=None, malloc_may_fail=False, exclude=None, only=None, extra_flags=(), timeout=None, replay=True,
-            native_extra=(), replay_fn=None, ignore_props=()):
+            native_extra=(), replay_fn=None, ignore_props=(), remove_bodies=()):
         res = {"name": name, "text": cfile + " " + " ".join(defs), "status": None, "wall": 0.0, "failed": [], "detail": "",
                "inputs": None, "replay": None}
         defs = list(defs)
@@ -54,7 +54,7 @@ class GlueEngine:
         try:
             commons = [core.build_common(self.wd, tag + "_common", list(common), defs=defs)]
             rc = (STUBS if self.stubs else []) if replace is None else replace
-            gb = core.compile_harness(self.wd, tag, src, self.lib + commons, defs=defs, replace_calls=rc)
+            gb = core.compile_harness(self.wd, tag, src, self.lib + commons, defs=defs, replace_calls=rc, remove_bodies=remove_bodies)
         except core.MachineryError as e:
             res["status"] = "machinery"
             res["detail"] = str(e)[-1500:]
